@@ -297,7 +297,13 @@ structure Res (t : Term) (τ : Ty) (r : Term) : Prop where
   type : r.typeOf = some τ
   wf : r.wf = true
   sound : ∀ I : Interp, I.WF → div0 I t = false → eval I r = eval I t ∧ div0 I r = false
+  /-- without the proviso, when the division-by-zero functions map 0 to 0 -/
+  total : ∀ I : Interp, I.WF → I.Tot → eval I r = eval I t
   fv : ∀ s ∈ r.fv, s ∈ t.fv
+
+/-- what a rule may assume about the interpretation when it proves the value equation: no division
+by zero is evaluated in the node, or the division-by-zero functions map 0 to 0 -/
+abbrev Hyp (I : Interp) (t : Term) : Prop := div0 I t = false ∨ I.Tot
 
 /-- `RuleOK` from `Res` for every applicable instance -/
 theorem RuleOK.of_res {op : Op} {e : Entry}
@@ -306,45 +312,58 @@ theorem RuleOK.of_res {op : Op} {e : Entry}
       Res (.node op args p) τ (e.rule p args)) : RuleOK op e where
   type := fun p args τ h1 h2 h3 => ⟨(h p args τ h1 h2 h3).type, (h p args τ h1 h2 h3).wf⟩
   sound := fun p args τ h1 h2 h3 => (h p args τ h1 h2 h3).sound
+  total := fun p args τ h1 h2 h3 => (h p args τ h1 h2 h3).total
   fv := fun p args τ h1 h2 h3 => (h p args τ h1 h2 h3).fv
+
+/-- a result from a value equation that holds under `Hyp` and a separate proof that the proviso is
+preserved -/
+theorem Res.of_hyp {t r : Term} {τ : Ty} (hty : r.typeOf = some τ) (hwf : r.wf = true)
+    (he : ∀ I : Interp, I.WF → Hyp I t → eval I r = eval I t)
+    (hd : ∀ I : Interp, I.WF → div0 I t = false → div0 I r = false)
+    (hfv : ∀ s ∈ r.fv, s ∈ t.fv) : Res t τ r :=
+  ⟨hty, hwf, fun I hI h => ⟨he I hI (Or.inl h), hd I hI h⟩, fun I hI h => he I hI (Or.inr h), hfv⟩
 
 /-- the node itself -/
 theorem Res.self {t : Term} {τ : Ty} (hwf : t.wf = true) (hty : t.typeOf = some τ) : Res t τ t :=
-  ⟨hty, hwf, fun _ _ hd => ⟨rfl, hd⟩, fun _ hs => hs⟩
+  ⟨hty, hwf, fun _ _ hd => ⟨rfl, hd⟩, fun _ _ _ => rfl, fun _ hs => hs⟩
 
 /-- a Boolean constant -/
-theorem Res.bool {t : Term} (b : Bool) (h : ∀ I : Interp, I.WF → div0 I t = false → eval I t = .b b) :
+theorem Res.bool {t : Term} (b : Bool) (h : ∀ I : Interp, I.WF → Hyp I t → eval I t = .b b) :
     Res t .bool (Term.bool b) :=
-  ⟨typeOf_bool b, wf_bool b, fun I hI hd => ⟨by rw [eval_boolc, h I hI hd], div0_bool I b⟩, by simp⟩
+  Res.of_hyp (typeOf_bool b) (wf_bool b) (fun I hI hh => by rw [eval_boolc, h I hI hh])
+    (fun I _ _ => div0_bool I b) (by simp)
 
-theorem Res.int {t : Term} (n : Int) (h : ∀ I : Interp, I.WF → div0 I t = false → eval I t = .i n) :
+theorem Res.int {t : Term} (n : Int) (h : ∀ I : Interp, I.WF → Hyp I t → eval I t = .i n) :
     Res t .int (Term.int n) :=
-  ⟨typeOf_int n, wf_int n, fun I hI hd => ⟨by rw [eval_intc, h I hI hd], div0_int I n⟩, by simp⟩
+  Res.of_hyp (typeOf_int n) (wf_int n) (fun I hI hh => by rw [eval_intc, h I hI hh])
+    (fun I _ _ => div0_int I n) (by simp)
 
-theorem Res.real {t : Term} (q : Rat) (h : ∀ I : Interp, I.WF → div0 I t = false → eval I t = .r q) :
+theorem Res.real {t : Term} (q : Rat) (h : ∀ I : Interp, I.WF → Hyp I t → eval I t = .r q) :
     Res t .real (Term.real q) :=
-  ⟨typeOf_real q, wf_real q, fun I hI hd => ⟨by rw [eval_realc, h I hI hd], div0_real I q⟩, by simp⟩
+  Res.of_hyp (typeOf_real q) (wf_real q) (fun I hI hh => by rw [eval_realc, h I hI hh])
+    (fun I _ _ => div0_real I q) (by simp)
 
 /-- an argument of a (non-binding) node -/
 theorem Res.arg {op : Op} {args : List Term} {p : Payload} {τ : Ty} {a : Term}
     (h1 : op ≠ .symbol) (h2 : op ≠ .function) (h3 : op.isQuantifier = false)
     (ha : a ∈ args) (hwf : a.wf = true) (hty : a.typeOf = some τ)
-    (h : ∀ I : Interp, I.WF → div0 I (.node op args p) = false → eval I a = eval I (.node op args p)) :
+    (h : ∀ I : Interp, I.WF → Hyp I (.node op args p) → eval I a = eval I (.node op args p)) :
     Res (.node op args p) τ a :=
-  ⟨hty, hwf, fun I hI hd => ⟨h I hI hd, div0_args_false I op args p h3 hd a ha⟩,
-    fun _ hs => (mem_fv_plain h1 h2 h3).mpr ⟨a, ha, hs⟩⟩
+  Res.of_hyp hty hwf h (fun I _ hd => div0_args_false I op args p h3 hd a ha)
+    (fun _ hs => (mem_fv_plain h1 h2 h3).mpr ⟨a, ha, hs⟩)
 
 /-- the negation (built by `Not`) of a Boolean argument of a (non-binding) node -/
 theorem Res.not_arg {op : Op} {args : List Term} {p : Payload} {a : Term}
     (h1 : op ≠ .symbol) (h2 : op ≠ .function) (h3 : op.isQuantifier = false)
     (ha : a ∈ args) (hwf : a.wf = true) (hty : a.typeOf = some .bool)
-    (h : ∀ I : Interp, I.WF → div0 I (.node op args p) = false →
+    (h : ∀ I : Interp, I.WF → Hyp I (.node op args p) →
       eval I (.node op args p) = .b (!(eval I a).isTrue)) :
     Res (.node op args p) .bool (Build.not_ a) := by
   obtain ⟨t1, t2, t3, t4⟩ := not_spec hwf hty
-  refine ⟨t1, t2, fun I hI hd => ?_, fun s hs => (mem_fv_plain h1 h2 h3).mpr ⟨a, ha, t4 s hs⟩⟩
-  rw [(t3 I hI).1, (t3 I hI).2, h I hI hd]
-  exact ⟨rfl, div0_args_false I op args p h3 hd a ha⟩
+  refine Res.of_hyp t1 t2 (fun I hI hh => ?_) (fun I hI hd => ?_)
+    (fun s hs => (mem_fv_plain h1 h2 h3).mpr ⟨a, ha, t4 s hs⟩)
+  · rw [(t3 I hI).1, h I hI hh]
+  · rw [(t3 I hI).2]; exact div0_args_false I op args p h3 hd a ha
 
 end PySMT
 
@@ -370,9 +389,9 @@ theorem Res.rebuild {op : Op} {args : List Term} {p p' : Payload} {τ : Ty}
     (hty' : (Term.node op args p').typeOf = some τ) (hshape : op.shapeOK p' args.length = true)
     (hev : ∀ I : Interp, evalOp I op p' (args.map (eval I)) = evalOp I op p (args.map (eval I))) :
     Res (.node op args p) τ (.node op args p') := by
-  refine ⟨hty', wf_mk' (wf_args hwf) hshape hty', fun I _ hd => ?_, fun s hs => ?_⟩
-  · rw [eval_plain I op args p' h1 h2 h3, eval_plain I op args p h1 h2 h3, hev I, div0_payload I op args p p' h3]
-    exact ⟨rfl, hd⟩
+  refine Res.of_hyp hty' (wf_mk' (wf_args hwf) hshape hty') (fun I _ _ => ?_) (fun I _ hd => ?_) (fun s hs => ?_)
+  · rw [eval_plain I op args p' h1 h2 h3, eval_plain I op args p h1 h2 h3, hev I]
+  · rw [div0_payload I op args p p' h3]; exact hd
   · rw [fv_node_plain op args p' h1 h2 h3] at hs
     rw [fv_node_plain op args p h1 h2 h3]
     exact hs
